@@ -82,6 +82,11 @@ def shim_programs():
             for br in ('BRZ', 'BRN'):
                 prog = [A.ref('BR', 'go'), A.lab('sp'), A.data(150000), A.lab('w'), A.data(0), A.lab('go')] + first + mid + [A.ref(br, 'tt'), A.imm('LDAC', 77), A.lab('tt')] + exita
                 out.append(('word:flags%d' % k, prog)); k += 1
+    # a conditional branch as the very first instruction: it tests the areg that reset left (0), not a flag that nothing has set yet.  The
+    # path not taken runs over the padding and the stack-pointer word (all defined instructions) and arrives with areg = word 0
+    out.append(('early:brz', [A.ref('BRZ', 'go'), A.lab('sp'), A.data(150000), A.lab('go')] + exita))
+    out.append(('early:brn', [A.ref('BRN', 'go'), A.lab('sp'), A.data(150000), A.lab('go')] + exita))
+    out.append(('early:brzbrn', [A.ref('BRZ', 'g1'), A.lab('sp'), A.data(150000), A.lab('g1'), A.ref('BRN', 'g2'), A.imm('LDAC', 5), A.lab('g2')] + exita))
     return [(i, p, asmlib.src_of(p)) for i, p in out]
 
 
